@@ -333,6 +333,63 @@ func piecesWorker(req N) (resp N) {
 			marshal = "ok"
 		}()
 	}
+	// the same accepted inputs compiled by a NEW compiler each, continuing the code of the one before (WithCode):
+	// function ids must stay unique, or the reloaded code links a function to the wrong code (or to none)
+	if marshal == "ok" {
+		func() {
+			defer func() {
+				if r := recover(); r != nil {
+					marshal = "withcode: panic: " + fmt.Sprint(r)
+				}
+			}()
+			var code *compiler.Code
+			for _, src := range pieces {
+				prog, err := parser.Parse(ctx, src)
+				if err != nil {
+					continue
+				}
+				opts := cfg.CompilerOpts()
+				if code != nil {
+					opts = append(opts, compiler.WithCode(code))
+				}
+				c2, err := compiler.New(opts...)
+				if err != nil {
+					return
+				}
+				if next, err := c2.Compile(prog); err == nil {
+					code = next
+				} else if code == nil {
+					code = c2.Code()
+				}
+			}
+			if code == nil {
+				return
+			}
+			b1, err := compiler.MarshalCode(code)
+			if err != nil {
+				marshal = "withcode: marshal: " + err.Error()
+				return
+			}
+			re, err := compiler.UnmarshalCode(b1)
+			if err != nil {
+				marshal = "withcode: unmarshal: " + err.Error()
+				return
+			}
+			if b2, err := compiler.MarshalCode(re); err != nil || string(b1) != string(b2) {
+				marshal = "withcode: remarshal differs"
+				return
+			}
+			// every function constant of the reloaded code has its code
+			for _, cc := range re.Flatten() {
+				for i := 0; i < cc.ConstantsCount(); i++ {
+					if fn, ok := cc.Constant(i).(*compiler.Function); ok && fn.Code() == nil {
+						marshal = "withcode: a reloaded function has no code"
+						return
+					}
+				}
+			}
+		}()
+	}
 	return N{"k": "done", "pieces": results, "globals": globals, "marshal": marshal}
 }
 
